@@ -160,6 +160,7 @@ func runHistory(rt *rapid.T, kind string, fixed bool) {
 	m.version = int64(rapid.IntRange(0, 3).Draw(rt, "v0"))
 	var root util.Key
 	genesis := false
+	lowerCheck := func() {}
 	if lndb, ok := m.store.DB.(*util.LevelNodeDB); ok && gen.Chance(rt, 60, "genesis") {
 		// the lower level already holds state (a previous block), written at this version or the one before
 		g := mptkit.NewTrie(lndb.GetPrev(), m.version, nil)
@@ -172,6 +173,15 @@ func runHistory(rt *rapid.T, kind string, fixed bool) {
 		}
 		root = g.GetRoot()
 		genesis = true
+		gmodel, groot, gver, gdb := mptkit.CopyContent(m.model), append([]byte(nil), g.GetRoot()...), m.version, lndb.GetPrev()
+		// the state of the previous block sits in the lower level, which the upper level never writes to (deletes are not
+		// propagated): whatever the history does on top, a reader of the lower level with a cold cache reads that state
+		lowerCheck = func() {
+			got, err := mptkit.Content(mptkit.NewTrie(gdb, gver, groot))
+			if err != nil || !mptkit.EqualContent(got, gmodel) {
+				m.failf("the lower level's own state (root %x) now reads %s (%v); it was %s", groot, mptkit.Show(got), err, mptkit.Show(gmodel))
+			}
+		}
 		if gen.Chance(rt, 50, "nextversion") {
 			m.version++
 		}
@@ -248,6 +258,7 @@ func runHistory(rt *rapid.T, kind string, fixed bool) {
 				m.failf("a cold clone iterates to %s (%v)", mptkit.Show(got), err)
 			}
 			tr.coldReader = true
+			lowerCheck()
 		case k < 90: // typed get
 			p := genPath("p")
 			m.hist = append(m.hist, op{Kind: "gettyped", Path: p})
@@ -272,6 +283,7 @@ func runHistory(rt *rapid.T, kind string, fixed bool) {
 		}
 		m.check()
 	}
+	lowerCheck()
 	nt := tr.deletePresent && (tr.prefixPair || tr.emptyPath)
 	cls := []string{"store:" + kind}
 	add := func(b bool, s string) {
